@@ -29,6 +29,13 @@ Tagged stream: the rules (legacy CSV and .rules alike) are keyword rows with tag
 statement lines and what tags they carry, so the implementation-only oracle requires the tags of every merchant, the figure each
 amount lands in (income / investment / transfers / spending / credits; JSON summary and the HTML report) and the selection of the
 `"t" in tags` views — not only counts and sums.
+Delimiters: every source (ordinary and supplemental) declares its delimiter in one of the spellings the code accepts — absent, `,`,
+`;`, the word `tab`, a REAL tab, a blank, `|` and ten more single characters (white-space characters U+001F, form feed, NBSP, EM SPACE
+among them), `regex:` line patterns (one ending in a significant blank) — and its file is written with exactly that separator.
+Odd-cell stream: the queried supplemental file, perfectly readable, with ONE odd cell or row (empty / blank / textual / otherwise
+shaped date, an amount that is no number, an empty item, a pending order without date, a subtotal line with fewer cells, surplus
+cells, a row of blank cells, no usable date in any row): the rule must still answer for every OTHER row (generator truth;
+Props/C11 odd_cell_field_local / amount_survives_odd_date for the cell-by-cell loader).
 PARTIAL: argparse, YAML loading and printing are exercised but not modelled.
 """
 import datetime
@@ -81,9 +88,9 @@ def fault_entry(r, kind, text, header=True):
     if kind == 'noperm' and os.geteuid() == 0:
         kind = 'dir'                        # root reads through any mode: use the other OSError a user meets
     if kind == 'latin1':                    # export saved by a spreadsheet as ISO-8859-1
-        return {'hex': '\n'.join(lines[:at] + ['Caf\u00e9 M\u00fcnchen,\u00a35'] + lines[at:]).encode('latin-1').hex()}
+        return {'hex': '\n'.join(lines[:at] + ['Caf\u00e9 M\u00fcnchen,\u00a35'] + lines[at:]).encode('latin-1', 'replace').hex()}
     if kind == 'cp1252':                    # Windows "ANSI": euro sign and a curly apostrophe
-        return {'hex': '\n'.join(lines[:at] + ['\u20ac 5 Joe\u2019s'] + lines[at:]).encode('cp1252').hex()}
+        return {'hex': '\n'.join(lines[:at] + ['\u20ac 5 Joe\u2019s'] + lines[at:]).encode('cp1252', 'replace').hex()}
     if kind == 'utf16':                     # Excel "Unicode text"
         return {'hex': text.encode('utf-16').hex()}
     if kind == 'binary':                    # the .xlsx / .pdf itself, renamed
@@ -111,8 +118,8 @@ BAD_BYTES = [b'\xe9', b'\x92', b'\xff', b'\x80', b'\xc3', b'\xe2\x82', b'\xed\xa
 PARTIAL = ['bad-header', 'bad-cell', 'bad-extra-row', 'bad-tail', 'bad-amount']
 
 
-def damage_entry(r, text, where):
-    """`text` = header line + comma separated data rows (date, item, amount) with bytes that are not UTF-8 in ONE place.
+def damage_entry(r, text, where, sep=','):
+    """`text` = header line + `sep`-separated data rows (date, item, amount) with bytes that are not UTF-8 in ONE place.
     Returns (file entry, touched) where `touched` lists the 1-based data rows whose OWN bytes were changed; every other row is
     byte for byte the row of the clean file.  (All draws happen for every `where`.)"""
     lines = [l.encode('utf-8') for l in text.split('\n')]
@@ -124,6 +131,8 @@ def damage_entry(r, text, where):
     u = r.random()
     full = r.random() < 0.5
     touched = []
+    sb = sep.encode('utf-8')
+    bad = bad.replace(sb, b'')                           # (the blank delimiter: the damage must not add a cell boundary)
 
     def splice(b, lo, hi):
         i = lo + int(u * (hi - lo + 1))
@@ -131,20 +140,93 @@ def damage_entry(r, text, where):
     if where == 'bad-header':                            # a column title with an accent, saved as ISO-8859-1
         lines[0] = splice(lines[0], 0, len(lines[0]))
     elif where == 'bad-cell':                            # the item text of ONE row (a column the rule does not compare)
-        c = lines[k].split(b',')
+        c = lines[k].split(sb)
         c[1] = splice(c[1], 0, len(c[1]))
-        lines[k] = b','.join(c)
+        lines[k] = sb.join(c)
         touched = [k]
     elif where == 'bad-amount':                          # the amount cell of ONE row
-        c = lines[k].split(b',')
+        c = lines[k].split(sb)
         c[2] = splice(c[2], 0, len(c[2]))
-        lines[k] = b','.join(c)
+        lines[k] = sb.join(c)
         touched = [k]
     elif where == 'bad-extra-row':                       # one more (complete) row that carries the bytes; its amount matches nothing
-        lines.insert(at, b'2025-03-09,Gi' + bad + b'ft,7.77')
+        lines.insert(at, b'2025-03-09' + sb + b'Gi' + bad + b'ft' + sb + b'7.77')
     elif where == 'bad-tail':                            # a torn last line without line end
-        lines[-1] = (b'2025-03-30,Stamp' + bad + b',0.85') if full else bad
+        lines[-1] = (b'2025-03-30' + sb + b'Stamp' + bad + sb + b'0.85') if full else bad
     return {'hex': b'\n'.join(lines).hex()}, touched
+
+
+# ---- a supplemental file with ONE ODD CELL / ONE ODD ROW (all of it perfectly readable text) ----------------------------------------
+# Order exports carry rows a statement never has: a pending order without a date, a subtotal line, a gift without a price, `n/a`,
+# a date in another shape or with the weekday appended, a line with fewer or more cells.  What `load_supplemental_sources` does with
+# them, cell by cell (established on the unchanged code, notes/C11_notes.md round 4): a date cell that does not parse with the
+# source's date format (empty, blank, text, an impossible date, another shape, date + weekday / time) stays a STRING in its row; an
+# amount cell that is empty / not a number becomes 0.0; an empty item is ''; a row with fewer cells simply lacks the fields it has no
+# cell for; surplus cells are ignored; a line whose cells are all blank is skipped.  No cell ever costs another row, let alone the table.
+ODD = ['odd-date-empty', 'odd-date-blank', 'odd-date-text', 'odd-amount', 'odd-item', 'odd-extra-row', 'odd-short-row', 'odd-blank-cells-row',
+       'odd-long-row', 'odd-every-date']
+ODD_DATES = ['pending', 'n/a', 'TBD', '-', '0000-00-00', '2025-02-30', '2025-13-01', '01/05/2025', '5 Jan 2025', '2025-01-05  Mon', '2025-01-05 10:31',
+             '2025-01-05T10:31:00', '20250105', '2025-1-5x', '#N/A', 'date']
+ODD_AMOUNTS = ['', ' ', 'n/a', '-', '--', 'free', '$', 'USD', '12.x', '1.2.3', 'TBD', '#VALUE!', '()']          # none of them is a number
+
+
+def odd_entry(r, text, where, sep=','):
+    """`text` = header line + `sep`-separated data rows (date, item, amount), all well-formed; ONE cell or ONE row of it made odd.
+    Returns (text, promised, extra_cents): `promised` = the 1-based ORIGINAL data rows whose amount a query `any(r.amount == amount
+    for r in orders)` must still find (every untouched row; with a row that has NO amount cell in the file — on which the query
+    raises — the rows standing before it), `extra_cents` = the amounts of added rows (they may answer the query too).
+    (All draws happen for every `where`.)"""
+    lines = text.split('\n')
+    assert lines[-1] == ''
+    n = len(lines) - 2
+    k = r.randint(1, n)
+    at = r.randint(1, n + 1)
+    odd_date = r.choice(ODD_DATES)
+    odd_amount = r.choice(ODD_AMOUNTS)
+    blank = r.choice([' ', '  ', '\t', ' \t ', '\xa0', '\u3000'])
+    short = r.choice([['Subtotal'], ['2025-03-09', 'Gift (no price)'], [''], ['', 'Pending'], ['Total:']])
+    item_empty = r.random() < 0.5
+    empty_date_row = r.random() < 0.6
+    quoted = r.random() < 0.3
+    rows = [l.split(sep) for l in lines[1:-1]]
+    promised = list(range(1, n + 1))
+    extra = []
+
+    def cell(c):                                        # a cell that contains the separator (or is to be written quoted) is quoted
+        return '"%s"' % c if (sep in c or (quoted and c == '')) else c
+    if sep in blank:
+        blank = ' ' if sep != ' ' else '\t'
+    out = [[c for c in row] for row in rows]
+    ins = None
+    if where == 'odd-date-empty':
+        out[k - 1][0] = ''
+    elif where == 'odd-date-blank':
+        out[k - 1][0] = blank
+    elif where == 'odd-date-text':
+        out[k - 1][0] = odd_date
+    elif where == 'odd-amount':
+        out[k - 1][2] = odd_amount
+        promised.remove(k)
+    elif where == 'odd-item':
+        out[k - 1][1] = '' if item_empty else blank
+    elif where == 'odd-extra-row':                      # a pending order: no date yet (or an odd one); its amount is a real amount
+        ins = (at, ['' if empty_date_row else odd_date, 'Garden hose (pending)', '310.00'])
+        extra = [31000]
+    elif where == 'odd-short-row':                      # fewer cells than columns: the row has no amount field at all
+        ins = (at, short)
+        if any(c.strip() for c in short):               # (a line of blank cells only is skipped like a blank line)
+            promised = list(range(1, at))               # the query raises on that row: only rows before it are sure to answer
+    elif where == 'odd-blank-cells-row':                # `,,` / ` , , `: skipped like a blank line
+        ins = (at, ['', blank, ''] if empty_date_row else ['', '', ''])
+    elif where == 'odd-long-row':                       # surplus cells
+        ins = (at, ['2025-03-02', 'Tape', '3.33', 'gift wrap', '', 'x'])
+        extra = [333]
+    elif where == 'odd-every-date':                     # no row has a usable date (the export writes dates in another shape)
+        for row in out:
+            row[0] = odd_date if empty_date_row else ''
+    if ins is not None:
+        out.insert(ins[0] - 1, ins[1])
+    return '\n'.join([lines[0]] + [sep.join(cell(c) for c in row) for row in out]) + '\n', promised, extra
 
 
 # ---- file names as statement exports really carry them ---------------------------------------------------
@@ -248,11 +330,43 @@ def name_classes(p):
     return out or ['plain']
 
 
+# ---- the `delimiter:` setting, in every spelling the code accepts ---------------------------------------------
+# config_loader.resolve_source_format copies the YAML value verbatim into FormatSpec.delimiter; parsers._iter_rows_with_delimiter
+# reads: absent / null -> comma, the WORD `tab` -> tab, ANY ONE character -> that character (nothing is trimmed or looked up: a real
+# tab from `"\t"`, a blank `" "`, U+001F, NBSP, EM SPACE are delimiters like `;` and `|`), `regex:PATTERN` -> line reader
+# (`re.compile(PATTERN).match(line.strip())`, groups = cells).  load_supplemental_sources: absent -> comma, `tab`, any one character.
+# (Established on the unchanged code, notes/C05_notes.md round 3 and notes/C11_notes.md round 4.)  Spelling -> separator written.
+DELIM_SPELLINGS = [(None, ','), (None, ','), (None, ','), (None, ','), (None, ','), (',', ','), (';', ';'), (';', ';'), ('tab', '\t'), ('tab', '\t'), ('\t', '\t'), ('\t', '\t'),
+                   (' ', ' '), (' ', ' '), ('|', '|'), (':', ':'), ('^', '^'), ('~', '~'), ('!', '!'), ('/', '/'), ('=', '='), ('\x1f', '\x1f'),
+                   ('\x0c', '\x0c'), ('\xa0', '\xa0'), ('\u2003', '\u2003'), ('regex', None), ('regex', None)]
+SUPP_DELIM_SPELLINGS = [d for d in DELIM_SPELLINGS if d[0] != 'regex']
+WHITE = ('\t', ' ', '\x1f', '\x0c', '\xa0', '\u2003')
+
+
+def delimiter_class(d):
+    if d is None:
+        return 'absent'
+    if d == 'tab':
+        return 'word-tab'
+    if d.startswith('regex:'):
+        return 'regex-ending-in-a-blank' if d.endswith(' ') else 'regex'
+    return {'\t': 'real-tab', ' ': 'blank', ',': 'comma-written'}.get(d, 'other-white-space-character' if d in WHITE else 'other-single-character')
+
+
+def regex_delimiter(r, ncols):
+    """a `regex:` delimiter for `ncols` cells and the way a line is written for it: (setting, line writer).  Two shapes: cells
+    separated by ` | ` (blanks optional in the pattern; the line is stripped before matching), and cells separated by `|` with a
+    trailing ` #end` note that the pattern cuts off by ENDING in a significant blank."""
+    if r.random() < 0.5:
+        return 'regex:^' + '\\s*\\|\\s*'.join(['(.*?)'] * ncols) + '$', lambda cells: ' | '.join(cells)
+    return 'regex:^' + '\\|'.join(['(.*?)'] * (ncols - 1) + ['(.*)']) + ' ', lambda cells: '|'.join(cells) + ' #end'
+
+
 def gen_source(r, i, year):
     eu = r.random() < 0.3
-    delim = r.choice([None, None, ';', 'tab'])
-    if eu and delim is None:
-        delim = ';'
+    delim, sep = r.choice(DELIM_SPELLINGS)
+    if eu and sep == ',':
+        delim, sep = ';', ';'
     header = r.random() < 0.7
     sign = r.choice(['', '', '-', '+'])
     datefmt = r.choice(['%Y-%m-%d', '%m/%d/%Y', '%d.%m.%Y'])
@@ -261,6 +375,11 @@ def gen_source(r, i, year):
     if r.random() < 0.4:
         cols.insert(r.randint(0, len(cols)), '_')
     r.shuffle(cols) if r.random() < 0.3 else None
+    if delim == 'regex':
+        delim, join = regex_delimiter(r, len(cols))
+    else:
+        def join(cells):
+            return sep.join('"%s"' % c if (sep in c) else c for c in cells)
     fmt_parts = []
     for c in cols:
         if c == 'date':
@@ -298,12 +417,11 @@ def gen_source(r, i, year):
             final = {'': cents, '-': -cents, '+': abs(cents)}[sign]
             expected.append({'cents': final, 'description': row['description']})
         rows.append([row[c] for c in cols])
-    sep = {None: ',', ';': ';', 'tab': '\t'}[delim]
     lines = []
     if header:
-        lines.append(sep.join(c.upper() for c in cols))
+        lines.append(join([c.upper() for c in cols]))
     for row in rows:
-        lines.append(sep.join('"%s"' % c if (sep in c) else c for c in row))
+        lines.append(join(row))
     return src, '\n'.join(lines) + '\n', expected
 
 
@@ -336,29 +454,39 @@ def gen_budget(r, focus=None):
         else:
             files[src['file']] = entry
             states.append(fk)
-    supp = r.random() < 0.4 or focus == 'damaged-supplemental'
-    ORDERS = 'date,item,amount\n2025-01-05,Book,15.99\n2025-01-06,Pen,100.00\n2025-02-01,Ink,2.50\n'
+    supp = r.random() < 0.4 or focus in ('damaged-supplemental', 'odd-cell-supplemental')
+    # the supplemental file is written with the delimiter ITS source declares (any spelling the supplemental loader accepts)
+    sdelim, ssep = r.choice(SUPP_DELIM_SPELLINGS)
+    ORDERS = 'date,item,amount\n2025-01-05,Book,15.99\n2025-01-06,Pen,100.00\n2025-02-01,Ink,2.50\n'.replace(',', ssep)
     ORDER_CENTS = [1599, 10000, 250]            # the amounts of data rows 1, 2, 3
     supp_state = 'ok'
     touched = None                              # data rows of the orders file whose own bytes are damaged (None: nothing is promised)
+    extra_cents = []                            # amounts of rows ADDED to the orders file (they may answer the query as well)
     ofile = gen_file_name(r, 'orders', taken)
     if r.random() < 0.5:
         ofile = 'data/orders.csv'
     fk = r.choice(FAULTS + ['missing', 'bom'])
     entry = fault_entry(r, fk, ORDERS)
     pk = r.choice(PARTIAL)
-    pentry, ptouched = damage_entry(r, ORDERS, pk)
+    pentry, ptouched = damage_entry(r, ORDERS, pk, ssep)
+    ok_ = r.choice(ODD)
+    oentry, opromised, oextra = odd_entry(r, ORDERS, ok_, ssep)
     u = r.random()
     if supp:
         taken.append(ofile)
-        sources.insert(r.randint(0, len(sources)), {'name': 'orders', 'file': ofile, 'format': '{date:%Y-%m-%d},{item},{amount}',
-                                                    'columns': {'description': '{item}'}, 'supplemental': True})
+        osrc = {'name': 'orders', 'file': ofile, 'format': '{date:%Y-%m-%d},{item},{amount}', 'columns': {'description': '{item}'}, 'supplemental': True}
+        if sdelim is not None:
+            osrc['delimiter'] = sdelim
+        sources.insert(r.randint(0, len(sources)), osrc)
         files[ofile] = ORDERS
         touched = []
-        if u < 0.25 or focus == 'damaged-supplemental':
+        if focus == 'odd-cell-supplemental' or (u < 0.2 and focus is None):
+            supp_state, touched, extra_cents = ok_, [k for k in (1, 2, 3) if k not in opromised], oextra
+            files[ofile] = oentry
+        elif u < 0.4 or focus == 'damaged-supplemental':
             supp_state, touched = pk, ptouched
             files[ofile] = pentry
-        elif u < 0.5:
+        elif u < 0.6:
             supp_state, touched = fk, None
             if fk == 'missing':
                 del files[ofile]
@@ -379,13 +507,13 @@ def gen_budget(r, focus=None):
     txn = GR.gen_txn(r)
     txn['description'] = r.choice(DESCS)
     kind = r.choice(['rules', 'rules', 'rules', 'none', 'csv'])
-    if focus == 'damaged-supplemental':
+    if focus is not None:
         kind = 'rules'
     settings = {'year': year, 'data_sources': sources}
     probe = None
     if kind == 'rules':
         f = GR.gen_rules_file(r, txn)
-        if supp and (r.random() < 0.7 or focus == 'damaged-supplemental'):
+        if supp and (r.random() < 0.7 or focus is not None):
             f['rules'].insert(0, {'name': 'Ordered', 'match': 'any(r.amount == amount for r in orders)', 'category': 'Orders',
                                   'tags': ['{next((r.item for r in orders if r.amount == amount), "")}']})
             f['transforms'] = []
@@ -393,9 +521,11 @@ def gen_budget(r, focus=None):
             # leniently): only the ordinary sources' transactions and amounts are required then.  With the file damaged in ONE place
             # every row whose own bytes are intact must still be there for the rule: at least the transactions that equal an intact
             # row's amount are `Ordered`, at most those that equal any row's amount (a damaged row may be kept or dropped).
+            # The same holds for a file with ONE ODD CELL or ONE ODD ROW (empty / blank / textual date, amount that is no number, a row
+            # with fewer or more cells): the rule still answers for every OTHER row.
             if touched is not None:
                 intact = [c for k, c in enumerate(ORDER_CENTS, 1) if k not in touched]
-                probe = ('Ordered', sum(1 for e in expect if e['cents'] in intact), sum(1 for e in expect if e['cents'] in ORDER_CENTS))
+                probe = ('Ordered', sum(1 for e in expect if e['cents'] in intact), sum(1 for e in expect if e['cents'] in ORDER_CENTS + extra_cents))
         elif r.random() < 0.4:
             f['transforms'] = [('field.description', 'regex_replace(field.description, "^UBER\\\\s+", "")')]
             f['rules'].insert(0, {'name': 'Probe', 'match': 'startswith("EATS")', 'category': 'Probe'})
@@ -406,7 +536,7 @@ def gen_budget(r, focus=None):
     elif kind == 'csv':
         files['config/merchant_categories.csv'] = GR.render_csv_rules(GR.gen_csv_rules(r, txn))
     mode = r.choice(['first_match', 'first_match', 'most_specific'])
-    if focus == 'damaged-supplemental':
+    if focus is not None:
         mode = 'first_match'
     if mode != 'first_match' or r.random() < 0.2:
         settings['rule_mode'] = mode
@@ -415,6 +545,7 @@ def gen_budget(r, focus=None):
         settings['views_file'] = 'config/views.rules'
     import yaml
     files['config/settings.yaml'] = yaml.safe_dump(settings, sort_keys=False)
+    assert yaml.safe_load(files['config/settings.yaml']) == settings, 'harness: the settings file does not load back as written'
     return {'files': files, 'kind': kind, 'states': states, 'ghost': ghost, 'expect': {'count': len(expect), 'sum_cents': sum(e['cents'] for e in expect),
                                                        'probe': probe if mode == 'first_match' else None, 'rows': expect}}
 
@@ -711,7 +842,9 @@ def model_input(budget):
                 continue
             spec = s['_format_spec']
             try:
-                rows = [list(x) for x in parsers._iter_rows_with_delimiter(fp, spec.delimiter, spec.has_header)]
+                # tokenised with the delimiter / header flag AS WRITTEN in the settings (not the fields of the FormatSpec the loader
+                # made of them), so the hand-over resolve_source_format -> reader is on the implementation's side of the comparison
+                rows = [list(x) for x in parsers._iter_rows_with_delimiter(fp, s.get('delimiter'), bool(s.get('has_header', True)))]
             except (OSError, UnicodeError):
                 continue           # cmd_run: "Error parsing" → the source yields no transaction (Props.C11.unreadable_source_neutral)
 
@@ -910,8 +1043,9 @@ def spec_oracle(budget, whole):
         hi = exp['probe'][2] if len(exp['probe']) > 2 else lo
         got = sum(m['count'] for m in j['merchants'] if m['name'] == name)
         if not lo <= got <= hi:
-            damaged = [x for x in budget.get('states', []) if x.startswith('supplemental:bad-')]
-            fails.append({'class': ('readable-rows-of-a-damaged-supplemental-file-lost:' if damaged and got < lo else 'rule-setting-not-honoured:') + name,
+            damaged = [x for x in budget.get('states', []) if x.startswith('supplemental:bad-') or x.startswith('supplemental:odd-')]
+            fails.append({'class': ('rows-of-a-supplemental-file-lost-to-one-odd-cell:' if damaged and got < lo and damaged[0].startswith('supplemental:odd-') else
+                                    'readable-rows-of-a-damaged-supplemental-file-lost:' if damaged and got < lo else 'rule-setting-not-honoured:') + name,
                           'budget': budget, 'observed': got, 'required': lo if lo == hi else {'at_least': lo, 'at_most': hi},
                           'supplemental_file': damaged[0][13:] if damaged else 'as configured'})
     return fails
@@ -1046,7 +1180,7 @@ def run(ctx):
         ce = json.loads(common.read(ctx.replay)).get('counterexample', {})
         budgets = [ce['budget']] if 'budget' in ce else []
     else:
-        budgets = [gen_budget(r, focus='damaged-supplemental' if i % 10 == 7 else None) for i in range(n)]
+        budgets = [gen_budget(r, focus='damaged-supplemental' if i % 10 == 7 else 'odd-cell-supplemental' if i % 10 in (2, 5) else None) for i in range(n)]
         budgets += [gen_legacy_budget(r) for _ in range(30 if ctx.quick else 800)]     # drawn AFTER the ordinary stream: that one is unchanged
         budgets += [gen_transform_budget(r) for _ in range(6 if ctx.quick else 100)]
         budgets += [gen_tagged_budget(r, kind=('csv', 'rules')[i % 2]) for i in range(16 if ctx.quick else 400)]    # drawn last, as above
@@ -1116,7 +1250,10 @@ def run(ctx):
                                          and (sum(1 for x in b['states'] if x in ('ok', 'bom')) if 'states' in b else
                                               sum(1 for k in b['files'] if k.startswith('data/s'))) >= 2)
     ctx.cov['rule'] = ('generated budget directories: 1–4 sources with independent format strings (column order, skip columns, custom capture + '
-                       'description template), delimiter (comma / ; / tab), header flag, decimal convention, sign mode, malformed rows, missing files, an '
+                       'description template), delimiter (25 spellings: absent / , / ; / the word tab / a real tab / a blank / | : ^ ~ ! / = / the white-space '
+                       'characters U+001F, form feed, NBSP, EM SPACE / two regex: line patterns, one ending in a significant blank - per source, ordinary and '
+                       'supplemental alike, the file written with that separator; counts in coverage.delimiter_spellings), header flag, decimal convention, '
+                       'sign mode, malformed rows, missing files, an '
                        'optional supplemental source queried by a rule, .rules / legacy CSV / no rules, both rule modes, optional views; each run '
                        'through `python -m tally up --format json -v -q` in a fresh process and through the composed Lean model (all three rule kinds). '
                        'Legacy stream (drawn after the ordinary one): the rules are a merchant_categories.csv of 2–7 tuples written against the statement '
@@ -1141,7 +1278,12 @@ def run(ctx):
                        'bytes that are not UTF-8 (Latin-1 / cp1252 letters, torn or overlong sequences, surrogates, 0xFF) in the header, in one '
                        'item cell, in one amount cell, in one added row or in a torn last line; required: the transactions equal to the amount of a '
                        'row whose own bytes are intact are classified by the querying rule (lower bound), at most those equal to any row (counts in '
-                       'coverage.damaged_supplemental_file_queried_by_a_rule). File names: 60 % of all source files (ordinary, supplemental, the '
+                       'coverage.damaged_supplemental_file_queried_by_a_rule). Odd-cell stream (20 % of the supplemental files, and 2 of every 10 budgets '
+                       'have supplemental source + querying rule + odd cell for certain): the supplemental file is valid UTF-8 but ONE cell / row is odd - '
+                       'the date cell of a row empty, blank, text (pending, n/a, TBD), impossible (2025-02-30), in another shape, with weekday / time appended; '
+                       'an amount cell that is no number; an empty item; an added pending order without date; an added subtotal / gift line with fewer cells '
+                       '(then the rows BEFORE it are required); an added row with surplus cells; a row of blank cells; every row without a usable date - '
+                       'required: the same lower / upper bound (counts in coverage.odd_cell_supplemental_file_queried_by_a_rule). File names: 60 % of all source files (ordinary, supplemental, the '
                        'extra and the missing source of the neutrality runs) are not plain identifiers: directory × stem × extension from what '
                        'exports carry (spaces, [ ] ( ) # & \' + , % ~ $ { } ; = @ ! : ", non-ASCII NFC / NFD, leading dot / dash, * ? [..], '
                        'case, nested / other / unnormalised directories, YAML-looking names) or a sibling of a name already used (other case; one '
@@ -1154,6 +1296,8 @@ def run(ctx):
     ctx.notes['source_file_states'] = dict(sorted(fs.items()))
     import yaml
     nc, nfiles, dprobe = {}, 0, {'budgets': 0, 'transactions_required_to_match_an_intact_row': 0}
+    oprobe = {'budgets': 0, 'transactions_required_to_match_another_row': 0, 'by_kind': {}}
+    dl = {}
     for b in budgets:
         try:
             srcs = yaml.safe_load(b['files']['config/settings.yaml'])['data_sources']
@@ -1161,14 +1305,24 @@ def run(ctx):
             continue
         for sdef in srcs:
             nfiles += 1
+            dk = ('supplemental:' if sdef.get('supplemental') else 'ordinary:') + delimiter_class(sdef.get('delimiter'))
+            dl[dk] = dl.get(dk, 0) + 1
             for c in name_classes(sdef['file']):
                 nc[c] = nc.get(c, 0) + 1
         pr = (b.get('expect') or {}).get('probe')
         if pr and pr[0] == 'Ordered' and any(x.startswith('supplemental:bad-') for x in b.get('states', [])):
             dprobe['budgets'] += 1
             dprobe['transactions_required_to_match_an_intact_row'] += pr[1]
+        odd = [x[13:] for x in b.get('states', []) if x.startswith('supplemental:odd-')]
+        if pr and pr[0] == 'Ordered' and odd:
+            oprobe['budgets'] += 1
+            oprobe['transactions_required_to_match_another_row'] += pr[1]
+            oprobe['by_kind'][odd[0]] = oprobe['by_kind'].get(odd[0], 0) + 1
     ctx.notes['source_file_names'] = dict(sorted(nc.items()), files=nfiles)
     ctx.notes['damaged_supplemental_file_queried_by_a_rule'] = dprobe
+    oprobe['by_kind'] = dict(sorted(oprobe['by_kind'].items()))
+    ctx.notes['odd_cell_supplemental_file_queried_by_a_rule'] = oprobe
+    ctx.notes['delimiter_spellings'] = dict(sorted(dl.items()))
     gs = {}
     for i in sel:
         g = budgets[i].get('ghost')
@@ -1209,7 +1363,7 @@ def run(ctx):
         out = []
         for i in range(150):
             b = (gen_tagged_budget(r) if i % 3 == 1 else gen_legacy_budget(r) if i % 3 == 2 else
-                 gen_budget(r, focus='damaged-supplemental' if i % 5 == 2 else None))
+                 gen_budget(r, focus='damaged-supplemental' if i % 6 == 3 else 'odd-cell-supplemental' if i % 6 == 0 else None))
             w = run_up(b)
             out.extend(spec_oracle(b, w) + locality_oracle(b, w) + neutral_oracle(r, b, w) + tag_oracle(b, w))
             if out:
@@ -1220,7 +1374,9 @@ def run(ctx):
                     required='the report contains exactly the transactions of all non-supplemental sources, each read with its own settings and '
                              'classified by the configured rules; changing one source or setting changes only its share; a missing or unreadable source '
                              '(ordinary or supplemental) leaves the others intact and does not stop the run; `file:` names exactly one file, '
-                             'literally; the readable rows of a supplemental file are available to the rules whatever another row contains; '
+                             'literally; every source is read with the delimiter it declares, in any accepted spelling (a white-space character is a '
+                             'delimiter like any other); the readable rows of a supplemental file are available to the rules whatever another row or '
+                             'cell contains; '
                              'a transaction carries the tags of every rule row that matches it (legacy CSV or .rules), its amount lands in the figure those '
                              'tags say, and a tag view selects the merchants that carry the tag')
     return ctx.finish(extra_trusted=[
